@@ -83,6 +83,17 @@ MUTANTS = [
     ("hs-cache-only-invalid-error", "eyecite/tokenizers.py", "                    except hyperscan.error:", "                    except hyperscan.InvalidError:", ["C14"]),
     ("hs-no-section-conversion", "eyecite/tokenizers.py", "                if long_chars:\n", "                if False:\n", ["C14"]),
     ("hs-cache-no-fallback", "eyecite/tokenizers.py", "                    except hyperscan.error:\n", "                    except hyperscan.DatabaseVersionError:\n", ["C14"]),
+    ("c01-drop-variation-regex", "eyecite/tokenizers.py", "            if variations:\n                regex = _substitute_edition(regex_template, *variations)",
+     "            if variations and len(variations) < 3:\n                regex = _substitute_edition(regex_template, *variations)", ["C01"]),
+    ("c01-short-cite-re", "eyecite/regexes.py", 'return regex.replace("(?P<page>", "at (?P<page>")', 'return regex.replace(",? (?P<page>", " at (?P<page>")', ["C01"]),
+    ("c01-court-prefix-first", "eyecite/helpers.py", "            if s == court_str:\n                return str(court[\"id\"])", "            if s == court_str and court_code is None:\n                return str(court[\"id\"])", ["C01"]),
+    ("c01-court-startswith-returns", "eyecite/helpers.py", "            if s.startswith(court_str):\n                court_code = court[\"id\"]", "            if s.startswith(court_str):\n                return court[\"id\"]", ["C01"]),
+    ("c01-fullspan-end-off-by-one", "eyecite/helpers.py", "    citation.full_span_end = citation.span()[1] + m.end()\n    citation.metadata.pin_cite = clean_pin_cite(m[\"pin_cite\"]) or None\n    if m[\"pin_cite\"]:\n        citation.metadata.pin_cite_span_end",
+     "    citation.full_span_end = citation.span()[1] + m.end() - 1\n    citation.metadata.pin_cite = clean_pin_cite(m[\"pin_cite\"]) or None\n    if m[\"pin_cite\"]:\n        citation.metadata.pin_cite_span_end", ["C01"]),
+    ("c01-pin-terminator", "eyecite/regexes.py", "            [,.;)\\]\\\\]|  # ending punctuation", "            [,.)\\]\\\\]|  # ending punctuation", ["C01"]),
+    ("c01-merge-drops-editions", "eyecite/models.py", "                self.variation_editions = cast(\n                    tuple, self.variation_editions\n                ) + cast(tuple, other.variation_editions)", "                self.variation_editions = cast(tuple, self.variation_editions)", ["C01"]),
+    ("c01-defendant-keeps-comma", "eyecite/helpers.py", '        ).strip(", (")\n        if defendant.strip():', '        ).strip(" (")\n        if defendant.strip():', ["C01"]),
+    ("c01-year-regex-3-digits", "eyecite/regexes.py", "            \\d{4}\n        )\n        # Year is occasionally", "            \\d{3,4}\n        )\n        # Year is occasionally", ["C01"]),
 ]
 
 
